@@ -187,6 +187,7 @@ fn triage_arg(r: &mut Rng, d: &Dom, prev: W) -> W {
 fn triage_unary(e: &mut Emit, funcs: &[(&str, fn(TwoFloat) -> TwoFloat, fn(RefTF) -> RefTF)], d: &Dom, n: u64) {
     let mut prev = (1.0, 0.0);
     let mut found = 0u64;
+    let cap: u64 = if e.tier == 0 { 5_000 } else { 150_000 };
     for _ in 0..n {
         let a = triage_arg(&mut e.rng, d, prev);
         prev = a;
@@ -200,7 +201,7 @@ fn triage_unary(e: &mut Emit, funcs: &[(&str, fn(TwoFloat) -> TwoFloat, fn(RefTF
                 _ => false,
             };
             e.triaged += 1;
-            if !same && found < 5_000 {
+            if !same && found < cap {
                 found += 1;
                 e.triage_diffs += 1;
                 e.ev(name, &tf1(a), || v2(f(t(a))));
@@ -212,6 +213,7 @@ fn triage_unary(e: &mut Emit, funcs: &[(&str, fn(TwoFloat) -> TwoFloat, fn(RefTF
 fn triage_binary(e: &mut Emit, name: &str, f: fn(TwoFloat, TwoFloat) -> TwoFloat, g: fn(RefTF, RefTF) -> RefTF, dx: &Dom, dy: &Dom, n: u64) {
     let (mut px, mut py) = ((1.5, 0.0), (2.0, 0.0));
     let mut found = 0u64;
+    let cap: u64 = if e.tier == 0 { 5_000 } else { 150_000 };
     for _ in 0..n {
         let x = triage_arg(&mut e.rng, dx, px);
         let y = if e.rng.chance(1, 6) {
@@ -231,253 +233,11 @@ fn triage_binary(e: &mut Emit, name: &str, f: fn(TwoFloat, TwoFloat) -> TwoFloat
             _ => false,
         };
         e.triaged += 1;
-        if !same && found < 5_000 {
+        if !same && found < cap {
             found += 1;
             e.triage_diffs += 1;
             e.ev(name, &[hx(x.0), hx(x.1), hx(y.0), hx(y.1)], || v2(f(t(x), t(y))));
         }
-    }
-}
-
-// ------------------------------------------------------------------------------------------
-// C12: constants
-// ------------------------------------------------------------------------------------------
-
-pub fn const_list() -> Vec<(&'static str, TwoFloat, TwoFloat)> {
-    vec![
-        ("E", consts::E, <TwoFloat as FloatConst>::E()),
-        ("FRAC_1_PI", consts::FRAC_1_PI, <TwoFloat as FloatConst>::FRAC_1_PI()),
-        ("FRAC_2_PI", consts::FRAC_2_PI, <TwoFloat as FloatConst>::FRAC_2_PI()),
-        ("FRAC_2_SQRT_PI", consts::FRAC_2_SQRT_PI, <TwoFloat as FloatConst>::FRAC_2_SQRT_PI()),
-        ("FRAC_1_SQRT_2", consts::FRAC_1_SQRT_2, <TwoFloat as FloatConst>::FRAC_1_SQRT_2()),
-        ("FRAC_PI_2", consts::FRAC_PI_2, <TwoFloat as FloatConst>::FRAC_PI_2()),
-        ("FRAC_PI_3", consts::FRAC_PI_3, <TwoFloat as FloatConst>::FRAC_PI_3()),
-        ("FRAC_PI_4", consts::FRAC_PI_4, <TwoFloat as FloatConst>::FRAC_PI_4()),
-        ("FRAC_PI_6", consts::FRAC_PI_6, <TwoFloat as FloatConst>::FRAC_PI_6()),
-        ("FRAC_PI_8", consts::FRAC_PI_8, <TwoFloat as FloatConst>::FRAC_PI_8()),
-        ("LN_2", consts::LN_2, <TwoFloat as FloatConst>::LN_2()),
-        ("LN_10", consts::LN_10, <TwoFloat as FloatConst>::LN_10()),
-        ("LOG2_E", consts::LOG2_E, <TwoFloat as FloatConst>::LOG2_E()),
-        ("LOG10_E", consts::LOG10_E, <TwoFloat as FloatConst>::LOG10_E()),
-        ("LOG10_2", consts::LOG10_2, <TwoFloat as FloatConst>::LOG10_2()),
-        ("LOG2_10", consts::LOG2_10, <TwoFloat as FloatConst>::LOG2_10()),
-        ("PI", consts::PI, <TwoFloat as FloatConst>::PI()),
-        ("SQRT_2", consts::SQRT_2, <TwoFloat as FloatConst>::SQRT_2()),
-        ("TAU", consts::TAU, <TwoFloat as FloatConst>::TAU()),
-    ]
-}
-
-pub fn c12(c: &mut Ctx) {
-    c12_angles(c);
-    if c.shard != 0 {
-        return;
-    }
-    // FloatConst accessors are bit-identical to the constants; every constant is valid
-    for (name, k, fc) in const_list() {
-        let ins = tf1(w(k));
-        c.note("const", &ins, true);
-        if !beq(w(k), w(fc)) {
-            c.viol("const", "floatconst_differs", &ins, &outs(w(fc)), format!("FloatConst::{name}() differs from consts::{name}"));
-        }
-        if !valid_ref(k.hi(), k.lo()) {
-            c.viol("const", "invalid", &ins, &[], format!("consts::{name} is not a valid TwoFloat"));
-        }
-        c.sample("const", || json!({"name": name, "hi": k.hi(), "lo": k.lo()}));
-    }
-    // associated constants
-    let mx = w(TwoFloat::MAX);
-    let mn = w(TwoFloat::MIN);
-    let ins = tf1(mx);
-    c.note("assoc", &ins, true);
-    if !(valid_ref(mx.0, mx.1) && mx.0 == f64::MAX && from_raw(mx.0, mx.1).is_valid()) {
-        c.viol("assoc", "max_invalid", &ins, &[], "MAX must be valid with hi == f64::MAX".into());
-    }
-    // nothing above MAX / below MIN may be accepted by the library's own is_valid / try_from
-    for l in [next_up(mx.1), pow2(970), 1e300, f64::MAX, step(mx.1, 5)] {
-        for (h, lw) in [(f64::MAX, l), (-f64::MAX, -l)] {
-            let acc = from_raw(h, lw).is_valid() || <TwoFloat as core::convert::TryFrom<(f64, f64)>>::try_from((h, lw)).is_ok();
-            c.note("assoc", &[hx(h), hx(lw)], true);
-            if acc {
-                c.viol("assoc", "beyond_max_accepted", &[hx(h), hx(lw)], &[], "a value beyond MAX/MIN is accepted as valid: MAX/MIN are not the extreme valid values".into());
-            }
-        }
-    }
-    if valid_ref(mx.0, next_up(mx.1)) {
-        c.viol("assoc", "max_not_largest", &ins, &[], "(f64::MAX, next_up(lo)) is still valid: MAX is not the largest valid value".into());
-    }
-    if !(valid_ref(mn.0, mn.1) && mn.0 == -f64::MAX && from_raw(mn.0, mn.1).is_valid()) {
-        c.viol("assoc", "min_invalid", &tf1(mn), &[], "MIN must be valid with hi == f64::MIN".into());
-    }
-    if valid_ref(mn.0, next_down(mn.1)) {
-        c.viol("assoc", "min_not_smallest", &tf1(mn), &[], "(f64::MIN, next_down(lo)) is still valid".into());
-    }
-    if !beq(mn, (-mx.0, -mx.1)) {
-        c.viol("assoc", "min_not_neg_max", &tf1(mn), &[], "MIN != -MAX".into());
-    }
-    let mp = w(TwoFloat::MIN_POSITIVE);
-    c.note("assoc", &tf1(mp), true);
-    if !(mp.0 == pow2(-1022) && mp.1 == 0.0) {
-        c.viol("assoc", "min_positive", &tf1(mp), &[], "MIN_POSITIVE must be (2^-1022, 0)".into());
-    }
-    let nan = TwoFloat::NAN;
-    c.note("assoc", &tf1(w(nan)), true);
-    #[allow(clippy::eq_op)]
-    if nan == nan || !(nan != nan) {
-        c.viol("assoc", "nan_eq", &tf1(w(nan)), &[], "NAN must compare unequal to itself".into());
-    }
-    for (nm, x) in [("INFINITY", TwoFloat::INFINITY), ("NEG_INFINITY", TwoFloat::NEG_INFINITY), ("NAN", TwoFloat::NAN)] {
-        c.note("assoc", &tf1(w(x)), true);
-        if x.is_valid() || valid_ref(x.hi(), x.lo()) {
-            c.viol("assoc", "nonfinite_valid", &tf1(w(x)), &[], format!("{nm} must not be valid"));
-        }
-    }
-    if !(TwoFloat::INFINITY.hi() == f64::INFINITY && TwoFloat::NEG_INFINITY.hi() == f64::NEG_INFINITY) {
-        c.viol("assoc", "infinity_words", &[], &[], "INFINITY / NEG_INFINITY high words".into());
-    }
-    // Bounded / FloatCore / Float accessors forward to the associated constants
-    let pairs: Vec<(&str, W, W)> = vec![
-        ("Bounded::max_value", w(<TwoFloat as Bounded>::max_value()), mx),
-        ("Bounded::min_value", w(<TwoFloat as Bounded>::min_value()), mn),
-        ("FloatCore::max_value", w(<TwoFloat as FloatCore>::max_value()), mx),
-        ("FloatCore::min_value", w(<TwoFloat as FloatCore>::min_value()), mn),
-        ("FloatCore::min_positive_value", w(<TwoFloat as FloatCore>::min_positive_value()), mp),
-        ("FloatCore::infinity", w(<TwoFloat as FloatCore>::infinity()), w(TwoFloat::INFINITY)),
-        ("FloatCore::neg_infinity", w(<TwoFloat as FloatCore>::neg_infinity()), w(TwoFloat::NEG_INFINITY)),
-        ("FloatCore::nan", w(<TwoFloat as FloatCore>::nan()), w(TwoFloat::NAN)),
-        ("Float::max_value", w(<TwoFloat as num_traits::Float>::max_value()), mx),
-        ("Float::min_value", w(<TwoFloat as num_traits::Float>::min_value()), mn),
-        ("Float::min_positive_value", w(<TwoFloat as num_traits::Float>::min_positive_value()), mp),
-        ("Float::infinity", w(<TwoFloat as num_traits::Float>::infinity()), w(TwoFloat::INFINITY)),
-        ("Float::neg_infinity", w(<TwoFloat as num_traits::Float>::neg_infinity()), w(TwoFloat::NEG_INFINITY)),
-        ("Float::nan", w(<TwoFloat as num_traits::Float>::nan()), w(TwoFloat::NAN)),
-    ];
-    for (nm, got, want) in pairs {
-        c.note("accessor", &tf1(want), true);
-        if !beq(got, want) {
-            c.viol("accessor", "differs", &tf1(want), &outs(got), format!("{nm} differs from the associated constant"));
-        }
-    }
-    c.extra.insert("constants_checked".into(), json!(19 + 7));
-}
-
-const DEG_HEX: &str = "e52ee0d31e0fbdc30a97537f40d257d73482a25f7cbf02dccda27429b1380d91698b3b01ed3d708b08d6e9f91dceb578c55a12a05922933076f71be0c9b7585a";
-const RAD_HEX: &str = "8efa351294e9c8ae0ec5f66e9485c4d900b7aef501b5e6b8e502a9b4c94c8512b6f611678191148710c50c969d5140c960d4a6b49598f1ee71b1370f3cabeadc";
-
-/// 180/pi and pi/180 truncated to 512 bits (relative error < 2^-511; generated with mpmath at 700 bits).
-fn angle_consts() -> (Dy, Dy) {
-    use crate::exact::BigUint;
-    (Dy { neg: false, m: BigUint::from_hex(DEG_HEX), e: -506 }, Dy { neg: false, m: BigUint::from_hex(RAD_HEX), e: -517 })
-}
-
-/// err/bound of an angle conversion against x*K with the 512-bit constant (bound 6*2^-106 relative).
-fn angle_judge(c: &mut Ctx, op: &'static str, a: W, k: &Dy, to_deg: bool) -> f64 {
-    let ins = tf1(a);
-    c.note(op, &ins, a.0 != 0.0);
-    match guard(|| w(if to_deg { t(a).to_degrees() } else { t(a).to_radians() })) {
-        Err(m) => {
-            c.viol(op, "panic", &ins, &[], m);
-            f64::INFINITY
-        }
-        Ok(r) => {
-            if !finite(r) {
-                c.viol(op, "nonfinite", &ins, &outs(r), "non-finite result".into());
-                return f64::INFINITY;
-            }
-            let tv = dy(a).mul(k);
-            let ratio = crate::exact::rel_ratio(&dy(r), &tv, 6, 106);
-            // the constant is exact to 2^-511: a verdict within 2^-300 of the bound would be undecidable
-            if ratio > 1.0 + 1e-9 {
-                c.viol(op, "accuracy", &ins, &outs(r), format!("relative error exceeds 6*2^-106: err/bound = {ratio:.6}"));
-            }
-            c.ratio(op, "6*2^-106 rel", ratio, &ins);
-            ratio
-        }
-    }
-}
-
-pub fn c12_angles(c: &mut Ctx) {
-    let (deg, rad) = angle_consts();
-    let n = c.budget(6_000_000, 600_000_000) / 3;
-    let mut pool_d: Vec<(f64, W)> = Vec::new();
-    let mut pool_r: Vec<(f64, W)> = Vec::new();
-    let offer = |pool: &mut Vec<(f64, W)>, r: f64, a: W| {
-        if !r.is_finite() {
-            return;
-        }
-        if pool.len() < 48 {
-            pool.push((r, a));
-        } else {
-            let (mi, mv) = pool.iter().enumerate().fold((0, f64::INFINITY), |acc, (i, e)| if e.0 < acc.1 { (i, e.0) } else { acc });
-            if r > mv {
-                pool[mi] = (r, a);
-            }
-        }
-    };
-    for i in 0..n {
-        let a = if i % 16 == 1 {
-            crate::pools::round_integer(&mut c.rng)
-        } else if i % 16 == 2 {
-            crate::pools::published_const(&mut c.rng)
-        } else if i % 3 == 0 {
-            // every mantissa region, low word close to +- half an ulp (largest product rounding errors)
-            let hi = mk(c.rng.coin(), c.rng.range(-450, 449), c.rng.next() & MANT_MASK);
-            let cls = pk!(c.rng, [2u64, 4, 11, 11, 8]);
-            let lo = lo_class(&mut c.rng, hi, cls);
-            if valid_ref(hi, lo) { (hi, lo) } else { (hi, 0.0) }
-        } else {
-            tf_in(&mut c.rng, -450, 449)
-        };
-        let r = angle_judge(c, "to_degrees", a, &deg, true);
-        offer(&mut pool_d, r, a);
-        let r = angle_judge(c, "to_radians", a, &rad, false);
-        offer(&mut pool_r, r, a);
-    }
-    // hill-climbing: concentrate on the mantissa windows where the error is largest
-    for _ in 0..(2 * n) {
-        for (pool, k, to_deg, op) in [(&mut pool_d, &deg, true, "to_degrees"), (&mut pool_r, &rad, false, "to_radians")] {
-            if pool.is_empty() {
-                continue;
-            }
-            let i = c.rng.below(pool.len() as u64) as usize;
-            let (_, a) = pool[i];
-            let a2 = match c.rng.below(4) {
-                0 => {
-                    // same window of the high word, fresh low bits and a fresh near-half-ulp low word
-                    let hi = f64::from_bits(a.0.to_bits() ^ (c.rng.next() & ((1u64 << c.rng.below(40)) - 1)));
-                    let cls = pk!(c.rng, [2u64, 4, 11]);
-                    let lo = lo_class(&mut c.rng, hi, cls);
-                    let lo = if (lo < 0.0) == (a.1 < 0.0) { lo } else { -lo };
-                    if valid_ref(hi, lo) { (hi, lo) } else { a }
-                }
-                _ => tf_mutate(&mut c.rng, a, -450, 449),
-            };
-            let r = angle_judge(c, op, a2, k, to_deg);
-            if r.is_finite() {
-                let (mi, mv) = pool.iter().enumerate().fold((0, f64::INFINITY), |acc, (i, e)| if e.0 < acc.1 { (i, e.0) } else { acc });
-                if r > mv {
-                    pool[mi] = (r, a2);
-                }
-            }
-        }
-        c.count("stress_steps");
-    }
-}
-
-pub fn emit_c12(e: &mut Emit) {
-    if e.shard == 0 {
-        for (name, k, fc) in const_list() {
-            e.konst(name, k.hi(), k.lo());
-            e.konst(&format!("FloatConst::{name}"), fc.hi(), fc.lo());
-        }
-        let one = TwoFloat::from(1.0);
-        e.konst("to_degrees(1)", one.to_degrees().hi(), one.to_degrees().lo());
-        e.konst("to_radians(1)", one.to_radians().hi(), one.to_radians().lo());
-    }
-    let n = e.budget(300_000, 30_000_000) / 2;
-    for _ in 0..n {
-        let a = tf_in(&mut e.rng, -450, 450);
-        e.ev("to_degrees", &tf1(a), || v2(t(a).to_degrees()));
-        e.ev("to_radians", &tf1(a), || v2(t(a).to_radians()));
     }
 }
 
@@ -557,7 +317,38 @@ fn c14_panic_sweep(c: &mut Ctx, a: W, b: W) {
     }
 }
 
+/// Call-only sweep under the panic monitor: native-speed volume for the "never panics" clauses
+/// (debug-only self-checks and assertions fire on rare numerical tails that no oracle-rate sampling meets).
+pub fn panic_sweep(c: &mut Ctx, name: &'static str, funcs: &[fn(TwoFloat) -> TwoFloat], lin: &[(f64, f64)], emin: i64, emax: i64, positive: bool, n: u64) {
+    for i in 0..n {
+        let a = if i % 2 == 0 {
+            let (lo, hi) = lin[c.rng.below(lin.len() as u64) as usize];
+            let u = (c.rng.next() >> 11) as f64 * pow2(-53);
+            let x = lo + (hi - lo) * u;
+            let (h, l, _) = tf_with_hi(&mut c.rng, x);
+            (h, l)
+        } else {
+            tf_in(&mut c.rng, emin, emax)
+        };
+        let a = if positive { (a.0.abs(), if a.0 < 0.0 { -a.1 } else { a.1 }) } else { a };
+        if !valid_ref(a.0, a.1) {
+            continue;
+        }
+        c.evals += funcs.len() as u64;
+        for f in funcs {
+            let f = *f;
+            if let Err(m) = guard(|| f(t(a))) {
+                c.panics += 1;
+                c.viol(name, "panic", &tf1(a), &[], m);
+            }
+        }
+    }
+    *c.counters.entry("panic_sweep_calls").or_insert(0) += n * funcs.len() as u64;
+}
+
 pub fn c14(c: &mut Ctx) {
+    let ns = c.budget(16_000_000, 1_600_000_000);
+    panic_sweep(c, "exp_family/panic_sweep", &[|x| x.exp(), |x| x.exp2(), |x| x.exp_m1()], &[(-1.0, 1.0), (-40.0, 40.0), (-750.0, 720.0)], -60, 10, false, ns / 3);
     let z = [(0.0, 0.0), (-0.0, 0.0), (0.0, -0.0)];
     for a in z {
         c.note("exp", &tf1(a), true);
@@ -784,6 +575,8 @@ pub fn emit_c14(e: &mut Emit) {
 // ------------------------------------------------------------------------------------------
 
 pub fn c15(c: &mut Ctx) {
+    let ns = c.budget(24_000_000, 2_400_000_000);
+    panic_sweep(c, "log_family/panic_sweep", &[|x| x.ln(), |x| x.log2(), |x| x.ln_1p()], &[(0.3, 4.0), (0.9, 1.1), (0.0, 100.0)], -1000, 959, true, ns / 3);
     let one = (1.0, 0.0);
     for (op, f) in [("ln", 0u8), ("log2", 1), ("log10", 2)] {
         c.note(op, &tf1(one), true);
@@ -1307,6 +1100,8 @@ pub fn emit_c17(e: &mut Emit) {
 // ------------------------------------------------------------------------------------------
 
 pub fn c18(c: &mut Ctx) {
+    let ns = c.budget(12_000_000, 1_200_000_000);
+    panic_sweep(c, "hyperbolic/panic_sweep", &[|x| x.sinh(), |x| x.tanh(), |x| x.asinh(), |x| x.atanh(), |x| x.acosh()], &[(-1.0, 1.0), (-40.0, 40.0), (-600.0, 600.0), (1.0, 100.0)], -40, 59, false, ns / 5);
     for z in [(0.0, 0.0), (-0.0, 0.0)] {
         for (op, f) in [("sinh", 0u8), ("tanh", 1), ("asinh", 2), ("atanh", 3)] {
             c.note(op, &tf1(z), true);
